@@ -62,7 +62,9 @@ func ExcludedRegions(id string) []string {
 // QuickRuns returns (runs per worker, wall-clock cap in seconds) of the quick tier.
 func QuickRuns(id string) (int, int) {
 	switch id {
-	case "C02", "C03", "C09":
+	case "C09":
+		return 250, 120
+	case "C02", "C03":
 		return 500, 120
 	case "C04":
 		return 400, 120
@@ -72,8 +74,10 @@ func QuickRuns(id string) (int, int) {
 		return 800, 120
 	case "C06":
 		return 1500, 120
-	case "C10", "C18":
-		return 500, 120
+	case "C10":
+		return 120, 120
+	case "C18":
+		return 100, 120
 	case "C16":
 		return 40, 150
 	case "C17":
